@@ -193,6 +193,9 @@ func (s *Subscription) Loaded(resourceSub *rescache.ResourceSubscription, err er
 	if !s.c.Enqueue(func() {
 		if err != nil {
 			s.err = err
+			// A failed subscription is not reached by reaccess events or
+			// system resets, so it must not keep a cached access verdict.
+			s.access = nil
 			s.doneLoading()
 			return
 		}
@@ -925,8 +928,9 @@ func (s *Subscription) loadAccess(cb func(*rescache.Access), t *rescache.Throttl
 
 					cbs := s.accessCallbacks
 					s.flags &= ^flagAccessCalled
-					// Only store in case of an actual result or system.accessDenied error
-					if access.Error == nil || access.Error.Code == reserr.CodeAccessDenied {
+					// Only store in case of an actual result or system.accessDenied error,
+					// and never for a subscription that failed to load.
+					if s.err == nil && (access.Error == nil || access.Error.Code == reserr.CodeAccessDenied) {
 						s.access = access
 					}
 					s.accessCallbacks = nil
@@ -947,8 +951,9 @@ func (s *Subscription) loadAccess(cb func(*rescache.Access), t *rescache.Throttl
 
 				cbs := s.accessCallbacks
 				s.flags &= ^flagAccessCalled
-				// Only store in case of an actual result or system.accessDenied error
-				if access.Error == nil || access.Error.Code == reserr.CodeAccessDenied {
+				// Only store in case of an actual result or system.accessDenied error,
+				// and never for a subscription that failed to load.
+				if s.err == nil && (access.Error == nil || access.Error.Code == reserr.CodeAccessDenied) {
 					s.access = access
 				}
 				s.accessCallbacks = nil
